@@ -139,6 +139,22 @@ func c20Server(prefix []int, variant string) explore.Outcome {
 					return mcp.TextResourceContents{URI: "res://r", Text: "x"}, nil
 				})
 			})
+		case "shared-params":
+			// the application prepares one parameter map and hands it to several sends at once (it only reads it)
+			if err := rp.Handshake(); err != nil {
+				viol = append(viol, V("setup-handshake-fails", "setting the scenario up with well-behaved peers fails: %v", err))
+				return
+			}
+			rp.OpenStream()
+			vsched.Quiesce()
+			vsched.SetBranching(true)
+			sid := rp.SID
+			shared := map[string]interface{}{"n": 1, "text": "prepared once", "nested": map[string]interface{}{"k": "v"}}
+			vsched.Go("send", func() { r.Server.SendNotification(sid, "notifications/message", shared) })
+			vsched.Go("broadcast", func() { r.Server.BroadcastNotification("notifications/message", shared) })
+			vsched.Go("filtered", func() {
+				r.Server.SendFilteredNotification("notifications/message", shared, func(string) bool { return true })
+			})
 		case "notify-vs-streams":
 			if err := rp.Handshake(); err != nil {
 				viol = append(viol, V("setup-handshake-fails", "setting the scenario up with well-behaved peers fails: %v", err))
@@ -168,7 +184,7 @@ func c20Server(prefix []int, variant string) explore.Outcome {
 }
 
 var c20ClientVariants = []string{"calls", "config", "terminate", "close", "roots-changed"}
-var c20ServerVariants = []string{"session-object", "init-vs-register", "notify-vs-streams"}
+var c20ServerVariants = []string{"session-object", "init-vs-register", "notify-vs-streams", "shared-params"}
 
 func init() {
 	for _, mode := range []string{"ss", "sj", "ls", "io"} {
